@@ -10,6 +10,8 @@ pub fn exec_op2(sim: &Sim, op: &Op, _in_cb: bool) {
         Op::InsertExecutor { id, script } => crate::exec::insert_executor(sim, *id, script),
         Op::Schedule { exec, task, pendings, script } => crate::exec::schedule(sim, *exec, *task, *pendings, script),
         Op::Wake(t) => crate::exec::wake(sim, *t),
+        Op::InsertComposite { id, children, script } => crate::composite::insert_composite(sim, *id, children, script),
+        Op::PingChild(..) | Op::DropChildPing(..) | Op::PeerWriteChild(..) => crate::composite::child_op(sim, op),
         Op::SigNew { id, sigs, script } => crate::sig::sig_new(sim, *id, sigs, script),
         Op::SigAdd(id, s) => crate::sig::sig_change(sim, *id, 0, s),
         Op::SigRemove(id, s) => crate::sig::sig_change(sim, *id, 1, s),
